@@ -20,6 +20,7 @@ EXTENDS BankOps, FiniteSets, SequencesExt, TLC, Json
 CONSTANTS Accounts,
           CoinLists,   \* the set of coin lists tried: sequences of <<denom, amount>>
           Cap,         \* state constraint: no supply above Cap (mints beyond it are not tried)
+          InitLists,   \* coin lists tried for init_balance
           MetaDenoms,  \* denominations that may get metadata
           MetaVals     \* metadata values tried (tokens)
 
@@ -66,6 +67,16 @@ Burn(from, coins) ==
        Do([a |-> "burn", from |-> from, to |-> from, coins |-> coins, ok |-> TRUE], r,
           IF r.ok THEN [d \in Denoms |-> supply[d] - Tot(coins, d)] ELSE supply)
 
+(* BankKeeper::init_balance ("adjusting bank accounts in genesis", callable at any time through init_modules):
+   REPLACES the account's balance by the normalised coin list (zeros dropped, repeated denominations summed) *)
+InitBal(to, coins) ==
+    /\ last = NoOp
+    /\ \A d \in Denoms : supply[d] - bal[to][d] + Tot(coins, d) <= Cap
+    /\ LET row == [d \in Denoms |-> Tot(coins, d)]
+           r == [ok |-> TRUE, bal |-> [bal EXCEPT ![to] = row]] IN
+       Do([a |-> "init", from |-> to, to |-> to, coins |-> coins, ok |-> TRUE], r,
+          [d \in Denoms |-> supply[d] - bal[to][d] + Tot(coins, d)])
+
 (* BankKeeper::set_denom_metadata: stored as given, replaces what was there *)
 SetMeta(d, m) ==
     /\ last = NoOp
@@ -83,6 +94,7 @@ Next == \/ \E to \in Accounts, c \in CoinLists : Mint(to, c)
         \/ \E f \in Accounts, t \in Accounts, c \in CoinLists : Send(f, t, c)
         \/ \E f \in Accounts, c \in CoinLists : Burn(f, c)
         \/ \E d \in MetaDenoms, m \in MetaVals : SetMeta(d, m)
+        \/ \E to \in Accounts, c \in InitLists : InitBal(to, c)
         \/ Settle
 
 Spec == Init /\ [][Next]_vars
@@ -107,13 +119,13 @@ IsOp == last = NoOp /\ last' # NoOp
 (* an operation fails exactly when it carries no positive amount or would overdraw (per
    denomination, repeated denominations summed), and then changes nothing *)
 FailExactly ==
-    [][(IsOp /\ last'.a # "setmeta") => LET op == last' IN
+    [][(IsOp /\ last'.a \notin {"setmeta", "init"}) => LET op == last' IN
                /\ op.ok = (Positive(op.coins) /\ (op.a = "mint" \/ Covered(bal[op.from], op.coins)))
                /\ ~op.ok => (bal' = bal /\ supply' = supply)]_vars
 
 (* a successful operation moves exactly the stated totals and touches nothing else *)
 MovesExactly ==
-    [][(IsOp /\ last'.ok) =>
+    [][(IsOp /\ last'.ok /\ last'.a # "init") =>
         LET op == last' IN
         \A a \in Accounts, d \in Denoms :
             bal'[a][d] = bal[a][d]
@@ -121,11 +133,18 @@ MovesExactly ==
                          + (IF op.a \in {"send", "mint"} /\ a = op.to THEN Tot(op.coins, d) ELSE 0)]_vars
 
 SupplyExactly ==
-    [][(IsOp /\ last'.ok) =>
+    [][(IsOp /\ last'.ok /\ last'.a # "init") =>
         LET op == last' IN
         \A d \in Denoms :
             supply'[d] = supply[d] + (IF op.a = "mint" THEN Tot(op.coins, d) ELSE 0)
                                    - (IF op.a = "burn" THEN Tot(op.coins, d) ELSE 0)]_vars
+
+(* init_balance replaces exactly one account's balance by the per-denomination totals of the list *)
+InitExactly ==
+    [][(IsOp /\ last'.a = "init") =>
+        LET op == last' IN
+        \A a \in Accounts, d \in Denoms :
+            bal'[a][d] = IF a = op.to THEN Tot(op.coins, d) ELSE bal[a][d]]_vars
 
 (* metadata and ledger are independent *)
 MetaFrame ==
